@@ -305,10 +305,28 @@ def rule_BOX(FA):
             for f in FA.lib_fns(include_closures=False):
                 if f.get('_base') != base or f['name'] not in ('new', 'from', 'from_iter', 'build'):
                     continue
-                for b in f['blocks']:
+                # private construction phases are inlined; the shrink must act on a vector the field's value is built from
+                G = FA.inlined(f)
+                F = FA.fn(G)
+                F.dom()
+                fidx = [i for i, x in enumerate(adt['fields']) if x['name'] == fld['name']][0]
+                starts = []
+                for bi, b in enumerate(F.blocks):
+                    if bi not in F.reach:
+                        continue
+                    for st in b['s']:
+                        rv = st['rv']
+                        if rv['k'] == 'agg' and rv['kind'].get('adt') == base and fidx < len(rv['ops']) and 'p' in rv['ops'][fidx]:
+                            starts.append(rv['ops'][fidx]['p']['l'])
+                S = backward_slice(F, starts) if starts else None
+                for bi, b in enumerate(F.blocks):
+                    if bi not in F.reach:
+                        continue
                     t = b['t']
                     if t['k'] == 'call' and 'fn' in t['f'] and t['f']['fn']['name'] in ('shrink_to_fit', 'into_boxed_slice', 'shrink_to'):
-                        shr = True
+                        a0 = t['args'][0] if t['args'] else None
+                        if S is None or (a0 and 'p' in a0 and (a0['p']['l'] in S or F.struct_root(a0['p']['l']) in S)) or t['dest']['l'] in S:
+                            shr = True
             if shr:
                 out.append(Inst('R-BOX', key, 'ok', adt['span'], 'Vec payload: constructor calls shrink_to_fit / into_boxed_slice', props))
             else:
